@@ -1,6 +1,6 @@
 (* Props/C06.v — statements only.  Each is closed by [exact] of a lemma proved in Proofs/. *)
 From Coq Require Import ZArith QArith Qabs String List.
-From PT Require Import Loaders C06Check C06Sweep.
+From PT Require Import Loaders C06Check C06Sweep C06Rows.
 Open Scope Q_scope.
 
 (* every element block of the embedded composition table gets abundances summing to 100
@@ -66,3 +66,18 @@ Print Assumptions C06_isotope_density_scaling.
 Theorem C06_isotope_density_unknown : forall t d z a, a <> 0%Z -> dens_get d z = Some None -> density_of t d z a = NoneVal.
 Proof. exact isotope_density_unknown. Qed.
 Print Assumptions C06_isotope_density_unknown.
+
+(* every row of the three embedded mass tables names the element it is filed under (the loaders look rows up by the
+   atomic-number column alone; the symbol and name columns tell a mis-typed key), and the atomic-weight table has
+   one row per element, in order *)
+Theorem C06_mass_rows_name_their_element :
+  (forall line, In line Gen.MassTables.element_mass -> weight_row_ok line = true) /\
+  (forall line, In line Gen.MassTables.isotope_mass -> isotope_row_ok line = true) /\
+  (forall line, In line Gen.MassTables.isotope_abundance -> composition_row_ok line = true).
+Proof. exact mass_rows_name_their_element. Qed.
+Print Assumptions C06_mass_rows_name_their_element.
+
+Theorem C06_weight_rows_one_per_element : strictly_increasing (map row_z Gen.MassTables.element_mass) = true.
+Proof. exact weight_rows_one_per_element. Qed.
+Print Assumptions C06_weight_rows_one_per_element.
+
